@@ -17,7 +17,7 @@ def _job(args):
     c = contracts[ci]
     inst = c.instances[ii]
     t0 = time.time()
-    out = {"contract": c.qualname, "instance": inst.label, "results": [], "unsupported": [], "errors": [],
+    out = {"contract": c.qualname, "instance": inst.label, "generalisation": bool(getattr(inst, "generalisation", False)), "results": [], "unsupported": [], "errors": [],
            "paths": 0, "infeasible": 0, "assumptions": [], "gen_s": 0.0, "solve_s": 0.0}
     try:
         rep = verify_function(interp, c, inst, prop_prefix=prefix)
